@@ -9,7 +9,7 @@ use refimpl::ntlm;
 use serde::{Deserialize, Serialize};
 
 pub const LEVEL: &str = "fault_enumeration";
-pub const RULE: &str = "case = (credential set and connector configuration with NLA on, server certificate key in {RSA-2048 CA-signed, RSA-2048, RSA-3072, P-256}, reply strategy for the final CredSSP round). Strategies: honest; every single-bit flip of the honest TSRequest (bitflips section: every bit for the P-256 key and every third bit for RSA-2048 in quick, every bit for all four keys in thorough); key + k for k in {0, 2, 255, 256, 65536, ...}, key - 1, big-endian + 1, + 1 on the last byte; sealed under an unknown session key; sealed with the client-to-server keys; wrong signing key only; key + 1 of another certificate; the client's own token reflected; every truncation length; bytes appended inside the token / after the DER; BER re-encoding; advanced cipher state; wrong sequence number; garbage; random token; key + 1 followed or preceded by extra bytes under a valid seal; the same xor mask applied at two positions 1..128 bytes apart (differences that cancel under a folded comparison); constant ('dummy') checksum; ciphertext of another certificate's key + 1 obtained by xor with a zeroed checksum. With the CA-signed identity certificate checking is switched on in most cases (a validated certificate does not replace the key binding). One case in five (and a list in the enumerated section) uses a CHALLENGE that lacks some of the flags the client asked for (SIGN, SEAL, KEY_EXCH, ALWAYS_SIGN, ESS, 128 ...): the client may refuse it early, but must not release credentials without the proof. Each reply is classified by the reference server itself (lenient decode + unseal with the true keys): if it still yields key + 1 under a valid signature nothing is asserted; otherwise Connector::connect must return Err and the server, reading to EOF, must receive zero application bytes after the AUTHENTICATE message. For the honest reply the next message must be a TSRequest whose authInfo unseals. Non-trivial = the handshake reached the final round and the reply is not 'still honest'; distinct by hash of the case.";
+pub const RULE: &str = "case = (credential set and connector configuration with NLA on, server certificate key in {RSA-2048 CA-signed, RSA-2048, RSA-3072, P-256; in the enumerated section also Ed25519 raw keys, two of them beginning with 0xFF so that the + 1 carries}, reply strategy for the final CredSSP round). Strategies: honest; every single-bit flip of the honest TSRequest (bitflips section: every bit for the P-256 key and every third bit for RSA-2048 in quick, every bit for all four keys in thorough); key + k for k in {0, 2, 255, 256, 65536, ...}, key - 1, big-endian + 1, + 1 on the last byte; sealed under an unknown session key; sealed with the client-to-server keys; wrong signing key only; key + 1 of another certificate; the client's own token reflected; every truncation length; bytes appended inside the token / after the DER; BER re-encoding; advanced cipher state; wrong sequence number; garbage; random token; key + 1 followed or preceded by extra bytes under a valid seal; the same xor mask applied at two positions 1..128 bytes apart (differences that cancel under a folded comparison); constant ('dummy') checksum; ciphertext of another certificate's key + 1 obtained by xor with a zeroed checksum. With the CA-signed identity certificate checking is switched on in most cases (a validated certificate does not replace the key binding). reused-authentication-object: one Ntlm object used for two NLA connections through x224::Client::connect; in the second the final reply is sealed under the FIRST connection's session key (or an unrelated one, or is honest). One case in five (and a list in the enumerated section) uses a CHALLENGE that lacks some of the flags the client asked for (SIGN, SEAL, KEY_EXCH, ALWAYS_SIGN, ESS, 128 ...): the client may refuse it early, but must not release credentials without the proof. Each reply is classified by the reference server itself (lenient decode + unseal with the true keys): if it still yields key + 1 under a valid signature nothing is asserted; otherwise Connector::connect must return Err and the server, reading to EOF, must receive zero application bytes after the AUTHENTICATE message. For the honest reply the next message must be a TSRequest whose authInfo unseals. Non-trivial = the handshake reached the final round and the reply is not 'still honest'; distinct by hash of the case.";
 
 #[derive(Serialize, Deserialize, Hash, Clone, Debug)]
 pub struct Case {
@@ -98,6 +98,83 @@ pub fn run(c: &Case) -> Outcome {
     }
     if !nla.bytes_after_final.is_empty() {
         out.fail(format!("nla:bytes-after-refused-reply:{}", class), format!("the client wrote {} bytes on the link after a reply it must refuse ({:?}): {}", nla.bytes_after_final.len(), c.reply, hexs(&nla.bytes_after_final)));
+    }
+    out
+}
+
+/// One authentication object used for two NLA connections in a row (x224::Client::connect, the entry point below the
+/// Connector): in the second connection the server answers the final round with key + 1 sealed under the session key of the
+/// FIRST connection (which it may have learnt then); or honestly.
+#[derive(Serialize, Deserialize, Hash, Clone, Debug)]
+pub struct ReuseCase {
+    pub base: C17Case,
+    /// 0 = the second connection is answered honestly; 1 = with the first connection's session key; 2 = an unrelated key
+    pub second: u8,
+}
+
+pub fn run_reuse(c: &ReuseCase) -> Outcome {
+    let mut out = Outcome::new();
+    out.nontrivial(c.second != 0);
+    let mut base = c.base.clone();
+    base.cfg.nla = true;
+    base.cfg.restricted_admin = false;
+    base.cfg.blank_creds = false;
+    base.cfg.hash = None;
+    let scfg1 = c17::server_cfg(&base);
+    let mut ntlm = rdp::nla::ntlm::Ntlm::new(base.cfg.domain.clone(), base.cfg.user.clone(), base.cfg.password.clone());
+    let (r1, rep1, t1) = tls::run_x224_nla(&mut ntlm, &scfg1);
+    if t1 || rep1.timeout {
+        out.fail("inconclusive:timeout", "a socket timeout hit; not counted as a violation");
+        return out;
+    }
+    if let Res::Panic(p) = &r1 {
+        fail_panic(&mut out, "x224::Client::connect", p);
+        return out;
+    }
+    let key1 = match (&r1, &rep1.nla.exported_session_key) {
+        (Res::Ok(()), Some(k)) => k.clone(),
+        _ => {
+            // the first connection did not complete: nothing to reuse (guarded by a floor on the label below)
+            out.label("first-connection-failed");
+            return out;
+        }
+    };
+    out.label("first-connection-ok");
+    let mut scfg2 = c17::server_cfg(&base);
+    if let Some(n) = scfg2.nla.as_mut() {
+        n.final_reply = match c.second {
+            0 => FinalReply::Honest,
+            1 => FinalReply::WrongSessionKey(key1.clone()),
+            _ => FinalReply::WrongSessionKey(vec![0x42; 16]),
+        };
+    }
+    let (r2, rep2, t2) = tls::run_x224_nla(&mut ntlm, &scfg2);
+    if t2 || rep2.timeout {
+        out.fail("inconclusive:timeout", "a socket timeout hit; not counted as a violation");
+        return out;
+    }
+    if let Res::Panic(p) = &r2 {
+        fail_panic(&mut out, "x224::Client::connect", p);
+        return out;
+    }
+    if !rep2.nla.reached_final {
+        out.label("second-final-not-reached");
+        return out;
+    }
+    if rep2.nla.final_is_honest {
+        out.label("still-honest");
+        if let Some(Ok(_)) = &rep2.nla.credentials {
+            out.label("credentials-after-honest-reply");
+        }
+        return out;
+    }
+    out.label("must-refuse");
+    if r2.is_ok() {
+        out.fail("nla:accepted:previous-session-key", format!("second connection with the same authentication object: connect returned Ok although the final reply was sealed under {} session key", if c.second == 1 { "the FIRST connection's" } else { "an unrelated" }));
+        return out;
+    }
+    if !rep2.nla.bytes_after_final.is_empty() {
+        out.fail("nla:bytes-after-refused-reply:previous-session-key", format!("second connection with the same authentication object: the client wrote {} bytes after a final reply sealed under {} session key", rep2.nla.bytes_after_final.len(), if c.second == 1 { "the first connection's" } else { "an unrelated" }));
     }
     out
 }
@@ -280,6 +357,22 @@ fn sweep(tier: Tier, part: usize, parts: usize) -> impl Iterator<Item = Case> {
             v.push(Case { base: base.clone(), reply: r });
         }
     }
+    // raw-key certificates (Ed25519), among them keys that begin with 0xFF (the increment carries out of the first byte)
+    let n_ids = tls::pki().ids.len();
+    for id in [6usize, 10, 11] {
+        if id >= n_ids || !tls::pki().ids[id].name.starts_with("ed25519") {
+            continue;
+        }
+        let mut base = gen_base(&mut Src::new(&seed), Some(id as u8));
+        base.cfg.restricted_admin = false;
+        base.cfg.blank_creds = false;
+        for r in [FinalReply::Honest, FinalReply::NoCarryPlusOne, FinalReply::Offset(0), FinalReply::Offset(2), FinalReply::Offset(256), FinalReply::MinusOne, FinalReply::BigEndianPlusOne, FinalReply::LastBytePlusOne, FinalReply::OtherCert, FinalReply::PlainTruncated(31), FinalReply::PlainSuffix(vec![1]), FinalReply::PlainXor(vec![(0, 0xFF)]), FinalReply::PlainXor(vec![(0, 1)]), FinalReply::PlainXor(vec![(0, 0xFF), (1, 1)]), FinalReply::WrongSignKey, FinalReply::Reflect] {
+            v.push(Case { base: base.clone(), reply: r });
+        }
+        for bit in 0..(80 * 8) {
+            v.push(Case { base: base.clone(), reply: FinalReply::BitFlip(bit as u32) });
+        }
+    }
     v.into_iter().enumerate().filter(move |(i, _)| i % parts == part).map(|(_, c)| c)
 }
 
@@ -289,6 +382,19 @@ pub fn check(rep: &Report) {
     rep.assume("a reply that the reference side itself accepts (lenient decode, valid signature, key + 1) is not required to be refused");
     let tier = rep.tier;
     rep.enumerate("bitflips-truncations", false, move |p, n| sweep(tier, p, n), run);
+    let mut reuse = Vec::new();
+    for id in 0..4u8 {
+        for second in 0..3u8 {
+            for k in 0..3u8 {
+                let mut b = gen_base(&mut Src::new(&[id, second, k, 77, 1, 2, 3, 4, 5, 6, 7, 8, 9, 10, 11, 12, 13, 14, 15, 16, 17, 18, 19, 20]), Some(id));
+                b.challenge.flags |= ntlm::MANDATORY | ntlm::NEG_UNICODE;
+                reuse.push(ReuseCase { base: b, second });
+            }
+        }
+    }
+    rep.list("reused-authentication-object", reuse, run_reuse);
+    rep.require("reused-authentication-object", "first-connection-ok", 20);
+    rep.require("reused-authentication-object", "must-refuse", 12);
     rep.random("replies", rep.tier.n(3_000, 60_000), 200, decode, run);
     rep.require("replies", "must-refuse", 800);
     rep.require("replies", "honest", 50);
